@@ -277,6 +277,9 @@ func scenarioOmni(t *traceWriter, rng *rand.Rand) {
 				}
 				time.Sleep(opc.FeedInterval / 2)
 			}
+			if ex, msg := exited(); ex {
+				t.line("OMX store=%s phase=step%d => exited=1 err=%s", storeKind, st, hx([]byte(msg)))
+			}
 			for i, l := range logs {
 				sz, root, valid := served(l)
 				want := base64.StdEncoding.EncodeToString(l.br.root(sched[i][st]))
@@ -300,6 +303,11 @@ func scenarioOmni(t *traceWriter, rng *rand.Rand) {
 		time.Sleep(12 * opc.FeedInterval)
 		sz, root, valid := served(l)
 		t.line("OMF store=%s phase=fork log=%s witnessed=%d:%s => served=%d:%s valid=%d", storeKind, l.name, wsz, hx([]byte(wroot)), sz, hx([]byte(root)), valid)
+		// a log that answers with something the witness refuses keeps its feeder busy until the cycle's deadline: the
+		// service must outlive that (nothing a log serves may make omniwitness.Main return)
+		if ex, msg := exited(); ex {
+			t.line("OMX store=%s phase=fork => exited=1 err=%s", storeKind, hx([]byte(msg)))
+		}
 		stop()
 		start()
 		time.Sleep(12 * opc.FeedInterval)
